@@ -304,6 +304,15 @@ func runC15(c *fw.Ctx) {
 				continue
 			}
 			vals[n] = c15Value(r)
+			if len(names) > 0 && r.Intn(5) == 0 {
+				// several names carry the same value (a document passed as $PRIMARY and $FALLBACK), short or long
+				vals[n] = vals[names[r.Intn(len(names))]]
+				if r.Intn(2) == 0 {
+					vals[n] = canon.St(`{"document": "` + strings.Repeat("shared by several names ", 1+r.Intn(5)) + `", "n": [1, 2, 3]}`)
+					vals[names[0]] = vals[n]
+				}
+				c.Count("names_sharing_one_value", 1)
+			}
 			names = append(names, n)
 		}
 		sort.Strings(names)
